@@ -31,6 +31,9 @@ fn main() {
     let wd = Watchdog::start(arg(&a, "case-timeout", 20));
     let so = std::io::stdout();
     let mut cfg = RunCfg { mode, policy, render: !a.contains_key("no-render"), ..Default::default() };
+    if a.contains_key("sort-deps") {
+        cfg.sort_fetches_deps = true;
+    }
     if a.contains_key("no-dump") {
         cfg.want_dump = false;
     }
